@@ -10,25 +10,54 @@ FLOAT_T = {"'f4'", "'f8'", "'float32'", "'float64'", 'np.float32', 'np.float64',
 
 def check_validate_arrays(prog, rep, rule, entry):
     """validate_arrays(*arrays): equal shapes, equal array types, and - for dask - every array rechunked to the
-    first array's full chunk layout whenever the layouts differ."""
-    f = prog.func('utils', 'validate_arrays')
+    first array's full chunk layout whenever the layouts differ.  Read on the inlined view (a check moved into a helper is
+    seen in place); the loops over "every further array" may be index loops (`for i in range(1, len(arrays))`, element
+    `arrays[i]`) or element loops (`for other in arrays[1:]`, also through a local holding the slice)."""
+    from .inline import inline_view
+    f0 = prog.func('utils', 'validate_arrays')
+    f = inline_view(prog, f0)
     va = f.vararg
     if va is None:
         rep.add(rule, f, entry, 'validate_arrays signature', f.node.lineno, None, 'expected *arrays')
         return
     src = [n for n in f.own_nodes()]
-    # shape and type checks inside a loop over all further arrays
-    shape_ok = type_ok = False
+    # names of the first array and of the slice of the further ones
+    firsts, rests = {'%s[0]' % va}, {'%s[1:]' % va}
+    for n in src:
+        if isinstance(n, ast.Assign):
+            pairs = []
+            t0 = n.targets[0]
+            if isinstance(t0, ast.Name):
+                pairs = [(t0, n.value)]
+            elif isinstance(t0, ast.Tuple) and isinstance(n.value, ast.Tuple) and len(t0.elts) == len(n.value.elts):
+                pairs = list(zip(t0.elts, n.value.elts))
+            for t_, v_ in pairs:
+                if isinstance(t_, ast.Name) and norm(v_).replace(' ', '') == '%s[0]' % va:
+                    firsts.add(t_.id)
+                if isinstance(t_, ast.Name) and norm(v_).replace(' ', '') == '%s[1:]' % va:
+                    rests.add(t_.id)
+    # loops over all further arrays -> (loop, text of the element)
+    loops = []
     for lp in [n for n in src if isinstance(n, ast.For)]:
-        full = norm(lp.iter).replace(' ', '') in ('range(1,len(%s))' % va, '%s[1:]' % va)
+        it = norm(lp.iter).replace(' ', '')
+        if it == 'range(1,len(%s))' % va and isinstance(lp.target, ast.Name):
+            loops.append((lp, '%s[%s]' % (va, lp.target.id)))
+        elif it in rests and isinstance(lp.target, ast.Name):
+            loops.append((lp, lp.target.id))
+
+    def mentions(t, name, attr):
+        t = t.replace(' ', '')
+        return ('%s.data.%s' % (name, attr)) in t or ('%s.%s' % (name, attr)) in t
+    shape_ok = type_ok = False
+    for lp, E in loops:
         for n in ast.walk(lp):
             if isinstance(n, ast.If) and any(isinstance(x, ast.Raise) for x in n.body):
                 t = norm(n.test)
-                if '.shape' in t and full:
+                if any(mentions(t, F, 'shape') for F in firsts) and mentions(t, E, 'shape'):
                     shape_ok = True
-                if 'isinstance' in t and 'type(' in t and full:
+                if 'isinstance' in t and 'type(' in t and any(('%s.data' % F) in t.replace(' ', '') for F in firsts) and ('%s.data' % E) in t.replace(' ', ''):
                     type_ok = True
-    rep.add(rule, f, entry, 'validate_arrays: shape and type checks over all arrays', f.node.lineno,
+    rep.add(rule, f0, entry, 'validate_arrays: shape and type checks over all arrays', f0.node.lineno,
             shape_ok and type_ok, 'every further array must be checked for equal shape and equal array type '
             '(shape check: %s, type check: %s)' % (shape_ok, type_ok))
     # chunk alignment
@@ -36,34 +65,31 @@ def check_validate_arrays(prog, rep, rule, entry):
     why = 'no rechunk of the further arrays to the first array\'s chunks found'
     for n in src:
         if isinstance(n, ast.Assign) and isinstance(n.value, ast.Call) and short(n.value) == 'rechunk':
-            tgt = norm(n.targets[0])
-            arg = norm(n.value.args[0]) if n.value.args else ''
-            first = None
-            for s in src:
-                if isinstance(s, ast.Assign) and norm(s.value) == '%s[0]' % va:
-                    first = norm(s.targets[0])
-            want_args = {'%s.chunks' % first, '%s.data.chunks' % first}
-            good_target = tgt.startswith('%s[' % va) and tgt.endswith('.data')
+            tgt = norm(n.targets[0]).replace(' ', '')
+            arg = norm(n.value.args[0]).replace(' ', '') if n.value.args else ''
+            want_args = {'%s.chunks' % F for F in firsts} | {'%s.data.chunks' % F for F in firsts}
+            inloops = [(lp, E) for lp, E in loops if n in list(ast.walk(lp))]
+            loop_ok = bool(inloops)
+            E = inloops[0][1] if inloops else None
+            good_target = E is not None and tgt == '%s.data' % E and norm(n.value.func).replace(' ', '') in ('%s.data.rechunk' % E,)
             good_arg = arg in want_args
-            # enclosing condition
             cond_ok = True
             cond_txt = None
             for i in [x for x in src if isinstance(x, ast.If)]:
                 if n in list(ast.walk(i)) and 'chunk' in norm(i.test):
                     cond_txt = norm(i.test).replace(' ', '')
-                    idx = tgt[len(va) + 1:tgt.index(']')]
                     allowed = set()
-                    for a in (first, first + '.data'):
-                        for b in ('%s[%s]' % (va, idx), '%s[%s].data' % (va, idx)):
-                            allowed.add('%s.chunks!=%s.chunks' % (a, b))
-                            allowed.add('%s.chunks!=%s.chunks' % (b, a))
+                    for F in firsts:
+                        for a_ in (F, F + '.data'):
+                            for b_ in ((E, E + '.data') if E else ()):
+                                allowed.add('%s.chunks!=%s.chunks' % (a_, b_))
+                                allowed.add('%s.chunks!=%s.chunks' % (b_, a_))
+                                allowed.add('not%s.chunks==%s.chunks' % (a_, b_))
+                                allowed.add('not%s.chunks==%s.chunks' % (b_, a_))
                     cond_ok = cond_txt in allowed
-            # loop over all further arrays
-            loop_ok = any(n in list(ast.walk(lp)) and norm(lp.iter).replace(' ', '') in ('range(1,len(%s))' % va,)
-                          for lp in src if isinstance(lp, ast.For))
             ok = good_target and good_arg and cond_ok and loop_ok
             why = 'target %s, rechunk(%s), condition %s, loop over all: %s' % (tgt, arg, cond_txt, loop_ok)
-    rep.add(rule, f, entry, 'validate_arrays: dask arrays rechunked to the first array\'s chunks', f.node.lineno, ok,
+    rep.add(rule, f0, entry, 'validate_arrays: dask arrays rechunked to the first array\'s chunks', f0.node.lineno, ok,
             'multi-raster ops pair blocks positionally: whenever the full chunk layouts (.chunks) differ, every further '
             'array must be rechunked to the first array\'s .chunks - comparing only the largest chunk (chunksize) or '
             'number of blocks lets misaligned layouts through; ' + why)
